@@ -312,12 +312,23 @@ class Sym:
         self.string_values = string_values
         # crate-private single-field tuple structs (`struct SourceBytes<'s>(&'s [u8]);`) are transparent wrappers: building one,
         # `.0` on one and matching `Name(x)` are the identity on the wrapped value
+        # ... unless the wrapper has behaviour of its own: a hand-written impl of a trait through which the wrapper is *used*
+        # (Display, comparison, hashing, iteration, ...) makes `Wrapper(x)` differ from `x` exactly there. Derived impls and
+        # plumbing traits (Default, Clone, Copy, Debug, From, Deref, AsRef, Borrow) forward to the wrapped value.
         self.newtypes = set()
+        HARMLESS = ("Default", "Clone", "Copy", "Debug", "From", "Into", "Deref", "DerefMut", "AsRef", "AsMut", "Borrow",
+                    "StructuralPartialEq", "Send", "Sync", "Unpin", "Freeze")
         try:
+            own_impls = {}
+            for c_, it_ in fx.items.items():
+                for im_ in it_.get("impls", []):
+                    if im_.get("trait") and not im_.get("exp"):
+                        own_impls.setdefault(short_adt(re.sub(r"<.*$", "", im_.get("self", ""))), set()).add(im_["trait"].split("<")[0].split("::")[-1])
             for a_ in fx.all_adts():
                 if a_.get("kind") == "Struct" and a_["path"].split("::")[0] in krates and not a_.get("reachable_pub") and not a_.get("repr_c") \
                         and len(a_.get("variants") or []) == 1 and [f_["name"] for f_ in a_["variants"][0]["fields"]] == ["0"]:
-                    self.newtypes.add(short_adt(a_["path"]))
+                    if all(t_ in HARMLESS for t_ in own_impls.get(short_adt(a_["path"]), ())):
+                        self.newtypes.add(short_adt(a_["path"]))
         except Exception:
             self.newtypes = set()
         self.tsubst = []                  # stack of {generic parameter name: concrete type} of the helpers being inlined
